@@ -15,6 +15,8 @@ def call_of(name, rnd, route, script, kind):
         return {"api": "open"}
     if name == "close":
         return {"api": "close"}
+    if name.startswith("env:"):                 # the target changes its admission policy between two calls
+        return {"api": "_env", "intent": {"policy": name[4:]}}
     if kind == "logix":
         if name == "msgC":
             return {"api": "get_plc_name"}
@@ -76,6 +78,12 @@ def build(ctx, rnd, thorough):
         fat = rnd.randint(1, 60 if kind == "logix" else 20)
         scs.append(scenario(len(scs), rnd.choice(["LargeOK", "LargeRefused", "AllRefused", "SessionRefused"]), fk, fat, hist, rnd,
                             kind=kind, withblock=rnd.random() < 0.3))
+        if j % 4 == 1:                      # the target is busy at first and admits connections later (or the reverse)
+            k = rnd.randint(1, len(hist))
+            hist2 = hist[:k] + ["env:" + rnd.choice(["LargeOK", "LargeRefused", "AllRefused"])] + hist[k:] + ["msgC", "close"]
+            scs[-1] = scenario(len(scs) - 1, rnd.choice(["AllRefused", "AllRefused", "LargeRefused", "LargeOK"]), fk, fat, hist2, rnd, kind="cip",
+                               withblock=False)
+            scs[-1]["family"] += "-policy-change"
         if j % 3 == 0:                      # replies arrive in small TCP segments: the fault may fall inside a frame
             scs[-1]["chunk"] = rnd.choice([30, 24, 7, 1])
             scs[-1]["fault"] = None if fk == "none" else {"at": "op", "n": rnd.randint(1, 80), "kind": fk}
@@ -86,8 +94,12 @@ def build(ctx, rnd, thorough):
 def run(ctx):
     thorough = ctx.tier == "thorough"
     r = tlc.must_pass(tlc.run("Lifecycle", "Lifecycle.cfg", workers=16, timeout=1500, coverage=True), "Lifecycle")
-    if r.coverage_zero():
+    if [a for a in r.coverage_zero() if a != "PolicyChange"]:
         raise core.Machinery("vacuous Lifecycle run: actions never taken %s" % r.coverage_zero())
+    ctx.add_tlc(r, "R1")
+    r = tlc.must_pass(tlc.run("Lifecycle", "Lifecycle_env.cfg", workers=16, timeout=1500, coverage=True), "Lifecycle_env")
+    if r.coverage_zero():
+        raise core.Machinery("vacuous Lifecycle_env run: actions never taken %s" % r.coverage_zero())
     ctx.add_tlc(r, "R1")
     rnd = random.Random(ctx.seed * 101 + 10)
     scs, n_model = build(ctx, rnd, thorough)
